@@ -402,3 +402,10 @@ PLAN["C03"]["thorough"]["tests"][0]["shards"] = 13
 PLAN["C03"]["thorough"]["tests"].append({"run": "TestC03Bootstrap", "shards": 3, "checks": 1500, "timeout": 840})
 PLAN["C03"]["rule"] += ("; TestC03Bootstrap: the scripted bootstrap programs of C09 (registrations through the REST API or directly, revision counts up to 2^62, single- and multi-address starts) - "
                         "the volume is never writable while fewer than floor(RF/2)+1 attached replicas hold the highest revision count, and ReadOnly/RWReplicaCount follow every step")
+
+PLAN["C11"]["quick"]["tests"][0]["shards"] = 8
+PLAN["C11"]["quick"]["tests"].append({"run": "TestC11Faults", "shards": 3, "checks": 12, "timeout": 110, "shrink": "20s"})
+PLAN["C11"]["thorough"]["tests"][0]["shards"] = 8
+PLAN["C11"]["thorough"]["tests"].append({"run": "TestC11Faults", "shards": 3, "checks": 200, "timeout": 840, "shrink": "60s"})
+PLAN["C11"]["rule"] += ("; TestC11Faults: a removal in a victim process during which one file-system call fails (strace, as in C08); when the replica is still running afterwards it removes the child of that "
+                        "snapshot as well (the cleaner's next candidate) and closes: the reopened directory serves the live image and every other retained user snapshot unchanged")
